@@ -125,6 +125,28 @@ def r1_cell(chk: Check) -> None:
                 f.loc(site), g.describe_path(witness, mod.relpath),
             )
 
+    # (c2) EVERY registration writes the filter-set attribute: the callable may carry one from an earlier registration
+    #      (the attribute lives on the function object and unregister() never clears it)
+    for f in nested:
+        regs = [c for c in body_calls(f) if last_attr(c) == "register_hook_with_name" and c.args and isinstance(c.args[0], ast.Name)]
+        if not regs:
+            continue
+        g = cfg_of(f)
+        for c in regs:
+            hv = c.args[0].id  # type: ignore[attr-defined]
+            writes = [nid for n_ in walk_body(f.node) if isinstance(n_, ast.Assign) and any(isinstance(t, ast.Attribute) and t.attr == "filter_set" and is_var(t.value, hv) for t in n_.targets) for nid in g.nodes_of(n_)]
+            construct = f"{hv}.filter_set is written on every path to register_hook_with_name({hv}, ...)"
+            if not writes:
+                chk.violation("C19.R1", f, construct, "the registered callable never receives this registration's filter set", f.loc(c))
+                continue
+            w = g.path([g.entry], g.stmt_nodes_containing(c), avoid=writes, edge_ok=lambda a, b, lbl: not lbl.startswith("exc:"))
+            if w is None:
+                chk.ok("C19.R1", f, construct, "", f.loc(c))
+            else:
+                chk.violation("C19.R1", f, construct,
+                              "on some path the callable is registered WITHOUT its filter_set attribute being written: a function that was registered with apply_to/skip_for before keeps that old filter set, so a later UNFILTERED registration of it is still skipped for the operations the old filter excluded",
+                              f.loc(c), g.describe_path(w, mod.relpath))
+
     # (d) what `return register` hands out starts with a FilterSet produced by init_filter_set(register)
     outer_assigns = [(s, v) for s, v in assignments_to(outer.node, cell)]
     last = outer_assigns[-1][1] if outer_assigns else None
